@@ -1,7 +1,7 @@
 (* Lexing the whole text MIR_output writes: lex_all (p_ctx ms) = tk_ctx ms ++ [TEOF]. *)
 From Coq Require Import List ZArith NArith Bool String Lia.
 From MirV Require Import Base.W64 Mir.Opcode C11.Tables C11.Ast C11.BinIO C11.BinIOProofs C10.TextOut C10.TextScan C10.TextProofs
-  C10.LexProofs C10.TextTokens.
+  C10.LexProofs C10.TextTokens C10.VarsLayout C10.ParseProofs.
 Import ListNotations.
 Local Open Scope Z_scope.
 Local Notation length := List.length.
@@ -603,5 +603,156 @@ Section Lexing.
       apply lexA_app; [apply lexA_colon, ws_nil|].
       apply lexS_appA; [apply lexS_name; [apply ws_tab | now apply kw_ident] | | reflexivity].
       apply lex_proto_tail; [apply ws_tab | assumption].
+  Qed.
+
+  (* ---------------------------------------------------------------- local / global lines *)
+
+  Definition clocal_ok (v : mtype * name) : Prop := wf_mtype (fst v) /\ is_ident (snd v).
+  Definition cglobal_ok (v : mtype * name * name) : Prop := wf_mtype (fst (fst v)) /\ is_ident (snd (fst v)) /\ is_ident (snd v).
+
+  Lemma lex_local ws v : is_ws ws -> clocal_ok v -> lexS (ws ++ p_local v) (tk_local v).
+  Proof.
+    intros Hws [Ht Hn]. destruct v as [t n]. unfold p_local, tk_local. cbn [fst snd] in *.
+    rewrite app_assoc. change [TName (type_str t); TCol; TName n] with ([TName (type_str t)] ++ [TCol] ++ [TName n]).
+    apply lexS_appS'; [apply lexS_name; [assumption | now apply type_str_ident] | | right; reflexivity].
+    apply (lexA_appS ([] ++ [58%N]) [TCol]); [apply lexA_colon, ws_nil | apply (lexS_name [] n ws_nil Hn)].
+  Qed.
+
+  Lemma lex_global ws v : is_ws ws -> cglobal_ok v -> lexS (ws ++ p_global v) (tk_global v).
+  Proof.
+    intros Hws (Ht & Hn & Hh). destruct v as [[t n] h]. unfold p_global, tk_global. cbn [fst snd] in *.
+    rewrite app_assoc.
+    change [TName (type_str t); TCol; TName n; TCol; TName h] with ([TName (type_str t)] ++ [TCol] ++ [TName n] ++ [TCol] ++ [TName h]).
+    apply lexS_appS'; [apply lexS_name; [assumption | now apply type_str_ident] | | right; reflexivity].
+    apply (lexA_appS ([] ++ [58%N]) [TCol]); [apply lexA_colon, ws_nil|].
+    apply lexS_appS'; [apply (lexS_name [] n ws_nil Hn) | | right; reflexivity].
+    apply (lexA_appS ([] ++ [58%N]) [TCol]); [apply lexA_colon, ws_nil | apply (lexS_name [] h ws_nil Hh)].
+  Qed.
+
+  Lemma chunks8_all_nonempty {A} : forall fuel (l : list A), Forall (fun c => c <> []) (chunks8 fuel l).
+  Proof.
+    induction fuel as [|fuel IH]; intros l.
+    - destruct l; cbn; constructor; [discriminate | constructor].
+    - destruct l as [|a l']; [constructor|]. cbn [chunks8]. constructor; [cbn; discriminate | apply IH].
+  Qed.
+
+  Lemma lex_vars {A} (kw : string) (f : A -> bytes) (tk : A -> list ttok) (ok : A -> Prop) vs :
+    is_ident_b (str kw) = true ->
+    (forall ws a, is_ws ws -> ok a -> lexS (ws ++ f a) (tk a)) -> Forall ok vs ->
+    lexA (p_vars kw f vs) (tk_vars kw tk vs).
+  Proof.
+    intros Hkw Hel Hok. rewrite (p_vars_lines (str kw) f kw vs eq_refl). unfold tk_vars.
+    pose proof (chunks8_all_nonempty (length vs) vs) as Hne.
+    assert (Hoks : Forall (Forall ok) (chunks8 (length vs) vs)) by (now apply Forall_chunks8).
+    induction (chunks8 (length vs) vs) as [|c cs IH]; [apply lexA_nil|].
+    cbn [flat_map]. apply lexA_app; [|apply IH; [exact (Forall_inv_tail Hne) | exact (Forall_inv_tail Hoks)]].
+    unfold line_chars.
+    replace ((tab ++ str kw ++ tab ++ sep_list comma f c) ++ nl)
+      with (((tab ++ str kw) ++ (tab ++ sep_list comma f c)) ++ nl) by (repeat rewrite <- app_assoc; reflexivity).
+    change (TName (str kw) :: sep_toks tk c ++ [TNL]) with (([TName (str kw)] ++ sep_toks tk c) ++ [TNL]).
+    apply lexS_appA; [ | apply (lexA_nl []), ws_nil | reflexivity].
+    apply lexS_appS'; [apply lexS_name; [apply ws_tab | now apply kw_ident] | | right; reflexivity].
+    apply (lex_sep_list f tk ok Hel); [exact (Forall_inv Hne) | apply ws_tab | exact (Forall_inv Hoks)].
+  Qed.
+
+  (* ---------------------------------------------------------------- functions, modules, contexts *)
+
+  Definition cfunc_ok (f : func) : Prop :=
+    is_ident (f_name f) /\ Forall csigel_ok (map SigRes (f_res f) ++ map SigArg (f_args f))
+    /\ Forall clocal_ok (f_locals f) /\ Forall cglobal_ok (f_globals f) /\ Forall cinsn_ok (f_insns f).
+
+  Lemma no_newline_app a b : no_newline a -> no_newline b -> no_newline (a ++ b).
+  Proof. intros Ha Hb. apply Forall_app. split; assumption. Qed.
+
+  Lemma no_newline_digits z : 0 <= z -> no_newline (p_nat z).
+  Proof.
+    intros Hz. eapply Forall_impl; [|apply p_nat_digits; assumption]. intros c Hc ->. discriminate.
+  Qed.
+
+  Lemma no_newline_plural n : no_newline (plural n).
+  Proof. unfold plural. destruct (Nat.eqb n 1); repeat constructor; discriminate. Qed.
+
+  Lemma lex_func f : cfunc_ok f -> lexA (p_func fF fD fLD f) (tk_func f).
+  Proof.
+    intros (Hn & Hsig & Hloc & Hglob & Hins). unfold p_func, tk_func.
+    repeat rewrite <- app_assoc. cbn [app].
+    change (TName (f_name f) :: TCol :: TName (str "func") :: ?x) with ([TName (f_name f)] ++ [TCol] ++ [TName (str "func")] ++ x).
+    (* header *)
+    apply lexS_appA; [apply (lexS_name [] _ ws_nil Hn) | | reflexivity].
+    apply (lexA_app (str ":") [TCol]); [apply (lexA_colon []), ws_nil|].
+    rewrite (app_assoc tab (str "func")).
+    apply lexS_appA; [apply lexS_name; [apply ws_tab | now apply kw_ident] | | reflexivity].
+    rewrite (app_assoc tab (p_proto_tail _ _ _)).
+    apply lexA_app; [apply lex_proto_tail; [apply ws_tab | assumption]|].
+    (* locals, globals *)
+    apply lexA_app; [apply (lex_vars "local" p_local tk_local clocal_ok); [reflexivity | intros; now apply lex_local | assumption]|].
+    apply lexA_app; [apply (lex_vars "global" p_global tk_global cglobal_ok); [reflexivity | intros; now apply lex_global | assumption]|].
+    (* empty line and the comment line *)
+    change (TNL :: TNL :: ?x) with ([TNL] ++ [TNL] ++ x).
+    apply (lexA_app nl [TNL]); [apply (lexA_nl []), ws_nil|].
+    set (A1 := p_nat (Z.of_nat (length (f_args f)))). set (A2 := p_nat (Z.of_nat (length (f_locals f)))).
+    set (A3 := p_nat (Z.of_nat (length (f_globals f)))).
+    set (tail := flat_map (p_insn fF fD fLD) (f_insns f) ++ tab ++ str "endfunc" ++ nl).
+    set (cmt := 32%N :: A1 ++ str " arg" ++ plural (length (f_args f)) ++ str ", " ++ A2 ++ str " local"
+             ++ plural (length (f_locals f)) ++ str ", " ++ A3 ++ str " global" ++ plural (length (f_globals f))).
+    change (str "# " ++ ?x) with (35%N :: 32%N :: x).
+    replace (35%N :: 32%N :: A1 ++ str " arg" ++ plural (length (f_args f)) ++ str ", " ++ A2 ++ str " local"
+             ++ plural (length (f_locals f)) ++ str ", " ++ A3 ++ str " global" ++ plural (length (f_globals f)) ++ nl ++ tail)
+      with (([] ++ 35%N :: cmt ++ [10%N]) ++ tail)
+      by (subst cmt; unfold nl; cbn [app]; repeat rewrite <- app_assoc; reflexivity).
+    apply lexA_app.
+    - apply lexA_comment; [apply ws_nil|]. subst cmt.
+      constructor; [discriminate|].
+      subst A1 A2 A3.
+      repeat (apply no_newline_app; [first [apply no_newline_digits; lia | apply no_newline_plural | repeat constructor; discriminate]|]).
+      apply no_newline_plural.
+    - (* body and endfunc *)
+      subst tail. apply lexA_app.
+      + apply lex_flat_map. eapply Forall_impl; [|exact Hins]. intros i. apply lex_insn.
+      + change [TName (str "endfunc"); TNL] with ([TName (str "endfunc")] ++ [TNL]). rewrite app_assoc.
+        apply lexS_appA; [apply lexS_name; [apply ws_tab | now apply kw_ident] | apply (lexA_nl []), ws_nil | reflexivity].
+  Qed.
+
+  Definition citem_ok (it : item) : Prop :=
+    match it with ItFunc f => cfunc_ok f | _ => citem_ok_simple it end.
+
+  Lemma lex_item it : citem_ok it -> lexA (p_item fF fD fLD it) (tk_item it).
+  Proof.
+    intros H. destruct it as [x|x|x|x l|x t els|x r d|x l l2 d|x f|x va res args|f];
+      try (apply lex_item_simple; [exact I | exact H]).
+    cbn [p_item tk_item]. now apply lex_func.
+  Qed.
+
+  Definition cmodule_ok (m : module) : Prop := is_ident (mod_name m) /\ Forall citem_ok (mod_items m).
+
+  Lemma lex_module m : cmodule_ok m -> lexA (p_module fF fD fLD m) (tk_module m).
+  Proof.
+    intros [Hn Hits]. unfold p_module, tk_module.
+    repeat rewrite <- app_assoc. cbn [app].
+    change (TName (mod_name m) :: TCol :: TName (str "module") :: TNL :: ?x)
+      with ([TName (mod_name m)] ++ [TCol] ++ [TName (str "module")] ++ [TNL] ++ x).
+    apply lexS_appA; [apply (lexS_name [] _ ws_nil Hn) | | reflexivity].
+    apply (lexA_app (str ":") [TCol]); [apply (lexA_colon []), ws_nil|].
+    rewrite (app_assoc tab (str "module")).
+    apply lexS_appA; [apply lexS_name; [apply ws_tab | now apply kw_ident] | | reflexivity].
+    apply (lexA_app nl [TNL]); [apply (lexA_nl []), ws_nil|].
+    apply lexA_app.
+    - apply lex_flat_map. eapply Forall_impl; [|exact Hits]. intros it. apply lex_item.
+    - change [TName (str "endmodule"); TNL] with ([TName (str "endmodule")] ++ [TNL]). rewrite app_assoc.
+      apply lexS_appA; [apply lexS_name; [apply ws_tab | now apply kw_ident] | apply (lexA_nl []), ws_nil | reflexivity].
+  Qed.
+
+  Definition cctx_ok (ms : list module) : Prop := Forall cmodule_ok ms.
+
+  (* MIR_output's text lexes to the token sequence of the specification *)
+  Lemma lex_ctx ms : cctx_ok ms ->
+    lex (S (S (S (length (p_ctx fF fD fLD ms))))) (p_ctx fF fD fLD ms) = Some (tk_ctx ms ++ [TEOF]).
+  Proof.
+    intros Hok.
+    assert (H : lexA (p_ctx fF fD fLD ms) (tk_ctx ms)).
+    { unfold p_ctx, tk_ctx. apply lex_flat_map. eapply Forall_impl; [|exact Hok]. intros m. apply lex_module. }
+    destruct (H [] (S (S (S (length (p_ctx fF fD fLD ms))))) ltac:(rewrite app_nil_r; lia)) as (f' & Hf' & E).
+    rewrite app_nil_r in E. rewrite E.
+    destruct f' as [|[|f']]; try (cbn in Hf'; lia). reflexivity.
   Qed.
 End Lexing.
